@@ -14,7 +14,7 @@ Require Import String.
 Require Import Arith Lia List Bool ZArith QArith Qcanon.
 From TK Require Import Mat_Sums Mat_Core Mat_Qc Mat_EigSelect EigSelect Mat_EigSelect_Tie
                        Proj_Model Proj_Spec Proj_Proof
-                       Pca_Model Pca_Spec Pca_Proof Pca_Proof_Qc Spectral_KyFan Pca_Proof_Opt Spectral_Randomized Pca_Proof_Select Pca_Proof_Sign
+                       Pca_Model Pca_Spec Pca_Proof Pca_Proof_Qc Spectral_KyFan Pca_Proof_Opt Spectral_Randomized Pca_Proof_Select Pca_Proof_Sign Pca_Proof_Recon
                        PcaEmbed Pca_Tie.
 Import ListNotations.
 Local Open Scope nat_scope.
@@ -220,6 +220,42 @@ Example C06_pca_variance_optimal_nonvacuous :
 Proof.
   split; [lia|]. split; [exact ex6_full|]. split; [exact ex6_ascending|].
   split; [apply meq_by_compute; vm_compute; reflexivity|].
+  split; apply Qc_is_canon; vm_compute; reflexivity.
+Qed.
+
+(* 9a. what "retains variance" means for reconstruction: for ANY orthonormal d-frame Q the mean
+       squared reconstruction error of the centred samples is trace(C) - trace(Q^T C Q); hence PCA's
+       projection has the smallest reconstruction error among all orthogonal projections of rank d *)
+Theorem C06_recon_error_identity :
+  forall (F : Type) (Fo : FieldOps F) (Ff : IsField F) (N D d : nat) (X Q : mat F),
+    of_nat N <> 0%F ->
+    meq d d (mmul D (mtrans Q) Q) mI ->
+    recon_error N D d X Q = (mtrace D (cov_spec N X) - retained D d (cov_spec N X) Q)%F.
+Proof. exact @recon_error_identity. Qed.
+Print Assumptions C06_recon_error_identity.
+
+Theorem C06_pca_reconstruction_optimal :
+  forall (F : Type) (Fo : FieldOps F) (Ff : IsField F) (Fle : OrderedField F)
+         (N D d : nat) (X V Q : mat F) (Lam : vec F),
+    of_nat N <> 0%F -> d <= D ->
+    full_contract D (cov_spec N X) V Lam ->
+    ascending D Lam ->
+    meq d d (mmul D (mtrans Q) Q) mI ->
+    let P := select_cols V (D - d, d) in
+    fle (recon_error N D d X P) (recon_error N D d X Q).
+Proof. exact @pca_reconstruction_optimal. Qed.
+Print Assumptions C06_pca_reconstruction_optimal.
+
+Example C06_reconstruction_nonvacuous :
+  @of_nat Qc _ 4 <> 0%F /\ 1 <= 2 /\
+  full_contract 2 (cov_spec 4 (mof ex6_X)) ex6_V ex6_Lam /\ ascending 2 ex6_Lam /\
+  meq 1 1 (mmul 2 (mtrans ex6_Q) ex6_Q) mI /\
+  (* errors: PCA's axis leaves 1/2, the competitor e_1 leaves 5/2 - 26/25 = 73/50 *)
+  recon_error 4 2 1 (mof ex6_X) (select_cols ex6_V (1, 1)) = qfrac 1 2 /\
+  recon_error 4 2 1 (mof ex6_X) ex6_Q = qfrac 73 50.
+Proof.
+  split; [apply Qc_of_nat_neq0; lia|]. split; [lia|]. split; [exact ex6_full|].
+  split; [exact ex6_ascending|]. split; [apply meq_by_compute; vm_compute; reflexivity|].
   split; apply Qc_is_canon; vm_compute; reflexivity.
 Qed.
 
